@@ -209,12 +209,25 @@ def inside_ring(p, verts):
     """p not on the ring: parity of the proper crossings of the ray p + t(D,1), t > 0.
     The ray meets no lattice point other than p itself (|dx| < D), so every crossing is
     proper and no tie-breaking rule is involved."""
-    d = (D_PRIME, 1)
+    for dprime in RAY_PRIMES:
+        r = _inside_ring_dir(p, verts, (dprime, 1))
+        if r is not None:
+            return r
+    raise AssertionError('ray through a vertex for every direction tried')
+
+
+RAY_PRIMES = (D_PRIME, 999983, 1000033, 1000037, 15485863)
+
+
+def _inside_ring_dir(p, verts, d):
+    """crossing parity along p + t*d; None when the ray passes through a vertex (coordinates
+    that are not small integers, e.g. scaled by 2^60: another direction is tried then)"""
     q = (p[0] + d[0], p[1] + d[1])
     n = 0
     for a, b in ring_edges(verts):
         sa, sb = sgn(cross(p, q, a)), sgn(cross(p, q, b))
-        assert sa != 0 and sb != 0, 'ray through a lattice vertex'
+        if sa == 0 or sb == 0:
+            return None
         if sa == sb:
             continue
         # intersection parameter along the ray: t = cross(a-p, b-a) / cross(d, b-a)
